@@ -40,7 +40,7 @@ import odl
 from mc.ref import c02_ref as R
 
 PROPERTY = 'C02'
-BUDGET = {'quick': 600, 'thorough': 3600}
+BUDGET = {'quick': 1500, 'thorough': 3600}
 INF = float('inf')
 
 # value alphabets (dyadic: sums and products are exact in single and double precision)
